@@ -114,14 +114,242 @@ def main(tier):
              floor=4)
     chk.rule("XWIRE", "struct fields are initialised from the same-named source field", floor=150)
     chk.rule("OMIT", "bundle-omission predicates of the v2 encoding consider every field", floor=2)
+    chk.rule("MODIF", "combining adds elements only to a copy whose Modifiable flag is set", floor=5)
+    chk.rule("VERSION", "the v1 encoding is attempted unless the v1 conversion itself would refuse", floor=3)
     chk.rule("control", "positive controls", floor=2)
     w = zf.World(extract.facts_dir("all"), ["pczt", "zcash_transparent"])
     merge_rules(chk, w)
     merge_carry_rules(chk, w)
+    modif_rules(chk, w)
+    version_rules(chk, w)
     role_rules(chk, w)
     xwire_rules(chk, w)
     omit_rules(chk, w)
     chk.finish()
+
+
+# ---------------------------------------------------------------------- VERSION
+def _atom(o, truth):
+    """normalised atomic test: (frozenset of operand texts, 'eq'|'ne') or ('raw', text, truth)"""
+    txt = defuse.show(o) if not (isinstance(o, tuple) and o and o[0] == "disc") else "disc(%s)" % defuse.show(o[1])
+    m = re.match(r"^\((.+) (Eq|Ne) (.+)\)$", txt)
+    if m:
+        pol = (m.group(2) == "Eq") == truth
+        return (frozenset({m.group(1), m.group(3)}), "eq" if pol else "ne")
+    m = re.match(r"^(eq|ne)\(&(.+), &(.+)\)$", txt)
+    if m:
+        pol = (m.group(1) == "eq") == truth
+        return (frozenset({m.group(2), m.group(3)}), "eq" if pol else "ne")
+    return ("raw", txt, truth)
+
+
+def _neg(a):
+    if a[0] == "raw":
+        return ("raw", a[1], not a[2])
+    return (a[0], "ne" if a[1] == "eq" else "eq")
+
+
+def version_rules(chk, w):
+    """`serialize` must use the v1 encoding whenever the content is representable in it: the v1
+    conversion is the source of truth, so a pre-check that skips the attempt is only admissible when
+    it is the complement of a rejection the v1 conversion itself performs (otherwise representable
+    content is pushed to v2); and a successful conversion's serialisation is what is returned."""
+    import guards as G
+    ser = w.by_p.get("pczt::Pczt::serialize", [])
+    tf = [f for f in w.fns.values() if f.p == "<pczt::v1::Pczt as core::convert::TryFrom<pczt::Pczt>>::try_from"]
+    if len(ser) != 1 or len(tf) != 1:
+        chk.fail("VERSION", "missing", "Pczt::serialize / v1::Pczt::try_from not found")
+        return
+    rej = []
+    for f, prefix in [(tf[0], "arg0")] + [
+            (g, "arg0." + m.group(1)) for g in w.fns.values()
+            for m in [re.match(r"<pczt::(sapling|orchard)::v1::Bundle as core::convert::TryFrom<pczt::\1::Bundle>>::try_from$", g.p)]
+            if m]:
+        b, du = f.body, defuse.DefUse(f.body)
+        for bi, blk in enumerate(b.blocks):
+            if blk.cleanup:
+                continue
+            for st in blk.stmts:
+                if st.kind == "=" and st.place.local == 0 and st.rv.kind == "agg" and st.rv.agg[2] == "Err":
+                    conj = set()
+                    for sw, v, _tb in G.edge_conditions(b, bi):
+                        tr = G.truth(b.blocks[sw].term, v)
+                        o = du.origin(b.blocks[sw].term.discr)
+                        if "branch(" in defuse.show(o) or tr is None and o[0] != "disc":
+                            continue
+                        a = _atom(o, bool(tr) if tr is not None else v)
+                        if a[0] != "raw":
+                            a = (frozenset(x.replace("arg0", prefix, 1) for x in a[0]), a[1])
+                        conj.add(a)
+                    # drop the complements of earlier rejections (they only say "not rejected before")
+                    rej.append(conj)
+    singles = {next(iter(c)) for c in rej if len(c) == 1}
+    for c in rej:
+        rest = {a for a in c if _neg(a) not in singles}
+        if len(rest) == 1:
+            singles |= rest
+    b, du = ser[0].body, defuse.DefUse(ser[0].body)
+    calls = [(bb, t) for bb, t in b.calls() if not b.blocks[bb].cleanup and t.callee.indirect is None and
+             t.callee.target_p() == tf[0].p]
+    if len(calls) != 1:
+        chk.fail("VERSION", "attempt/missing", "serialize does not attempt the v1 conversion exactly once", ser[0].span.loc())
+        return
+    bb = calls[0][0]
+    n = 0
+    for sw, v, _tb in G.edge_conditions(b, bb):
+        tr = G.truth(b.blocks[sw].term, v)
+        o = du.origin(b.blocks[sw].term.discr)
+        a = _atom(o, bool(tr))
+        n += 1
+        if tr is not None and _neg(a) in singles:
+            chk.ok("VERSION", "serialize skips the v1 attempt only if %s — a condition v1::Pczt::try_from rejects"
+                   % (defuse.show(o)[:80] + (" is false" if tr else " holds")), sample=(n == 1))
+        else:
+            chk.fail("VERSION", "precheck/%s" % re.sub(r"[^A-Za-z0-9_.]+", "_", defuse.show(o))[:60],
+                     "serialize attempts the v1 encoding only when `%s` is %s, but the v1 conversion does not reject "
+                     "the opposite case: content representable in v1 is encoded as v2" % (defuse.show(o)[:120], tr),
+                     b.blocks[sw].term.span.loc())
+    # Ok(v1) => return Ok(v1.serialize())
+    import assume as S
+    res = S.after_call(b, bb, S.E("Result", "Ok"))
+    v1ser = [x for x, t in b.calls() if t.callee.indirect is None and t.callee.target_p() == "pczt::v1::Pczt::serialize"]
+    v2 = [x for x, t in b.calls() if t.callee.indirect is None and "v2::Pczt" in t.callee.target_p()]
+    if res is not None and v1ser and set(v1ser) <= res.blocks and not (set(v2) & res.blocks):
+        chk.ok("VERSION", "a successful v1 conversion is what serialize returns; v2 is used only after it failed or "
+               "was ruled out")
+    else:
+        chk.fail("VERSION", "result", "after a successful v1 conversion serialize does not return its serialisation",
+                 ser[0].span.loc())
+
+
+# ---------------------------------------------------------------------- MODIF
+FLAG_FOR = {"inputs": ("inputs_modifiable", "shielded_modifiable"),
+            "outputs": ("outputs_modifiable", "shielded_modifiable"),
+            "spends": ("shielded_modifiable",), "actions": ("shielded_modifiable",)}
+
+
+def modif_rules(chk, w):
+    """Combining may only add elements to a copy whose Modifiable flag for that list is set: in every
+    bundle merge, for each match on (flag(self_global), flag(other_global), <length ordering>) that
+    guards a call growing self.F: (a) self.F is grown only on the edge where self's flag holds and
+    self is the shorter copy, (b) with that flag clear and self shorter the merge fails, (c) with the
+    OTHER copy's flag clear and the other copy shorter the merge fails; the flag is F's flag."""
+    import assume as S
+    import guards as G
+    n = 0
+    for f in sorted(w.fns.values(), key=lambda f: f.p):
+        if f.crate.name != "pczt" or f.is_closure() or not re.search(r"::Bundle::merge$", f.p):
+            continue
+        names = list(f.argnames or [])
+        if "self_global" not in names or "other_global" not in names:
+            continue
+        sg, og = ("arg", names.index("self_global")), ("arg", names.index("other_global"))
+        b = f.body
+        du = defuse.DefUse(b)
+        grow_all = [(bb, re.match(r"&(?:\*deref_mut\(&)?(?:arg0|_1)\.(\w+)\)?$", defuse.show(du.origin(t.args[0]))))
+                    for bb, t in b.calls() if not b.blocks[bb].cleanup and t.callee.indirect is None and t.args and
+                    re.search(r"::(extend|push|append|insert|extend_from_slice)$", t.callee.target_p())]
+        grow_all = [(bb, m.group(1)) for bb, m in grow_all if m]
+        tuples = {}
+        for bi, blk in enumerate(b.blocks):
+            if blk.cleanup:
+                continue
+            for si, s_ in enumerate(blk.stmts):
+                if s_.kind == "=" and s_.rv.kind == "agg" and s_.rv.agg[0] == "tuple" and len(s_.rv.ops) == 3 and \
+                        not s_.place.proj:
+                    o = [du.origin(x) for x in s_.rv.ops[:2]]
+                    if all(x[0] == "call" and x[1].endswith("_modifiable") for x in o):
+                        tuples[s_.place.local] = (bi, si, s_, o)
+        # which tuple guards which growing call
+        guarded = {}
+        for gb, fld in grow_all:
+            for sw, v, tb in G.edge_conditions(b, gb):
+                d = b.blocks[sw].term.discr
+                if d.kind in ("copy", "move") and not d.place.proj:
+                    dd = du.single(d.place.local)
+                    pl = None
+                    if dd and dd[0] == "stmt" and dd[2].rv.kind == "disc":
+                        pl = dd[2].rv.place
+                    elif dd and dd[0] == "stmt" and dd[2].rv.kind == "use" and dd[2].rv.ops[0].kind in ("copy", "move"):
+                        pl = dd[2].rv.ops[0].place
+                    if pl is not None and pl.local in tuples and len(pl.proj) == 1:
+                        guarded.setdefault(pl.local, set()).add((gb, fld))
+                elif d.kind in ("copy", "move") and d.place.local in tuples and len(d.place.proj) == 1:
+                    guarded.setdefault(d.place.local, set()).add((gb, fld))
+        for gb, fld in grow_all:
+            if not any((gb, fld) in v for v in guarded.values()):
+                n += 1
+                chk.fail("MODIF", "%s/%s/unguarded" % (f.p.replace("pczt::", ""), fld), "self.%s is grown without a "
+                         "match on the Modifiable flags" % fld, b.blocks[gb].term.span.loc())
+        for tl, (bi, si, s_, o) in sorted(tuples.items()):
+            gs = sorted(guarded.get(tl, ()))
+            if not gs:
+                continue
+            flds = sorted({fld for _gb, fld in gs})
+            fld = flds[0]
+            key = "%s/%s" % (f.p.replace("pczt::", ""), "+".join(flds))
+            n += 1
+            flags = [x[1].rsplit("::", 1)[-1] for x in o]
+            recv = [defuse.strip_refs(x[2][0]) if x[2] else None for x in o]
+            o3 = defuse.show(du.origin(s_.rv.ops[2]))
+            m3 = re.match(r"cmp\(&len\(&(?:arg0|_1)\.(\w+)\), &len\(&arg1\.(\w+)\)\)$", o3)
+            if not m3 or m3.group(1) != fld or m3.group(2) != fld:
+                chk.fail("MODIF", key + "/ordering", "growing self.%s is decided by the ordering %s, expected "
+                         "self.%s.len().cmp(&other.%s.len())" % (fld, o3[:120], fld, fld), s_.span.loc())
+                continue
+            if len(flds) != 1 or flags[0] != flags[1] or flags[0] not in FLAG_FOR.get(fld, ()) or recv != [sg, og]:
+                chk.fail("MODIF", key + "/scrutinee", "growing self.%s is decided by %s(%s) / %s(%s); expected this "
+                         "list's flag of self_global / other_global"
+                         % (flds, flags[0], defuse.show(recv[0]), flags[1], defuse.show(recv[1])), s_.span.loc())
+                continue
+
+            grow = [gb for gb, _f in gs]
+            if any(x.kind not in ("copy", "move") or x.place.proj for x in s_.rv.ops):
+                chk.fail("MODIF", key + "/anchors", "the matched tuple is not built from plain locals", s_.span.loc())
+                continue
+
+            def explore(self_flag, other_flag, order):
+                # from the block that builds the matched tuple, with its operands assumed (an operand
+                # copied inside that block is assumed at the copy)
+                car, inj = {}, {}
+                for op, val in ((s_.rv.ops[0], None if self_flag is None else S.B(self_flag)),
+                                (s_.rv.ops[1], None if other_flag is None else S.B(other_flag)),
+                                (s_.rv.ops[2], S.E("Ordering", order))):
+                    if val is None:
+                        continue
+                    ks = [k for k, st in enumerate(b.blocks[bi].stmts[:si]) if st.kind == "=" and
+                          not st.place.proj and st.place.local == op.place.local]
+                    if ks:
+                        inj[(bi, ks[-1])] = val
+                    else:
+                        car[op.place.local] = val
+                return S.explore(b, bi, car, inject=inj, limit=60000)
+            r1 = explore(False, None, "Less")
+            r2 = explore(None, False, "Greater")
+            r3 = explore(True, None, "Less")
+            r4 = explore(None, None, "Greater")
+            r5 = explore(None, None, "Equal")
+
+            def fails(r):
+                rets = {rv for _rb, rv in r.returns}
+                return not r.too_big and bool(rets) and rets <= {"variant:None"}
+            a_ok = fails(r1) and not (set(grow) & r1.blocks)
+            c_ok = fails(r2)
+            live = not r3.too_big and bool(set(grow) & r3.blocks)
+            only_less = not (set(grow) & r4.blocks) and not (set(grow) & r5.blocks)
+            if a_ok and c_ok and live and only_less:
+                chk.ok("MODIF", "%s: self.%s grows only when %s(self_global) holds and self is the shorter copy; a "
+                       "clear flag on the copy that would be extended fails the merge (both directions)"
+                       % (f.p.replace("pczt::", ""), fld, flags[0]), sample=(fld == "inputs"))
+            else:
+                chk.fail("MODIF", key, "self.%s: with self's %s clear and self shorter the merge %s; with the other "
+                         "copy's flag clear and the other copy shorter it %s; growing is %s with the flag set; "
+                         "growing happens only when self is shorter: %s"
+                         % (fld, flags[0], "fails" if a_ok else "can succeed or extend self",
+                            "fails" if c_ok else "can succeed", "reachable" if live else "unreachable", only_less),
+                         s_.span.loc())
+    if n == 0:
+        chk.fail("MODIF", "missing", "no Modifiable-flag match found in the bundle merges")
 
 
 # ---------------------------------------------------------------------- MERGE
